@@ -128,3 +128,21 @@ Theorem C15_special_paths_bypass : forall c w o, special c = true -> fopen w = N
   acked (step c w o) = acked w ++ match o with Write id _ _ _ _ _ _ _ => [id] | _ => [] end.
 Proof. exact special_paths_bypass. Qed.
 Print Assumptions C15_special_paths_bypass.
+
+(* "in a directory created on demand" — also again: in EVERY state, after the log directory was removed from outside, the
+   next Reopen (and a write that rotates in the all-stamped naming mode) re-creates it with 0700 and opens a new file with
+   the configured name and mode.  (External deletions are not operations of the histories above: see FileSink.xop.) *)
+Theorem C15_reopen_recreates_dir : forall c w t t', special c = false ->
+  let w' := step c (xstep c w (XRmDir t)) (Reopen t') in
+  dirmode w' = Some dirMode /\ files w' = [new_file c w t'] /\ fopen w' = Some (next_ino w, newFileName c t') /\
+  lc w' = t' /\ bw w' = 0%Z /\ step_ok c (xstep c w (XRmDir t)) (Reopen t') = true.
+Proof. exact reopen_recreates_dir. Qed.
+Print Assumptions C15_reopen_recreates_dir.
+Theorem C15_rotating_write_recreates_dir : forall c w t id size t1 t2 t3 t4 t5 o, special c = false -> tsOnly c = false ->
+  fopen w = Some o -> rotate_due c w t2 = true ->
+  let w1 := xstep c w (XRmDir t) in
+  let w' := step c w1 (Write id size t1 t2 t3 t4 t5 nofault) in
+  dirmode w' = Some dirMode /\ files w' = [add_data (new_file c w t4) id] /\
+  fopen w' = Some (next_ino w, newFileName c t4) /\ step_ok c w1 (Write id size t1 t2 t3 t4 t5 nofault) = true.
+Proof. exact rotating_write_recreates_dir. Qed.
+Print Assumptions C15_rotating_write_recreates_dir.
